@@ -7,7 +7,7 @@ src="$1"; name="$2"
 export GOFLAGS=-mod=mod GOPROXY=off GOSUMDB=off GOTOOLCHAIN=local
 wt=/tmp/confirm-$name
 git -C /repo worktree remove --force $wt >/dev/null 2>&1
-git -C /repo worktree add -q --detach $wt HEAD || exit 2
+git -C /repo worktree add -q --detach $wt ${SEED_BASE:-HEAD} || exit 2
 log=$(mktemp)
 cleanup() { git -C /repo worktree remove --force $wt >/dev/null 2>&1; }
 trap cleanup EXIT
